@@ -91,6 +91,9 @@ type specInfo struct {
 }
 
 func genSpec(r *Rand, wallets []string) specInfo {
+	if r.Chance(degenerateShare, 100) {
+		return genDegenerateSpec(r, wallets) // gen_degenerate.go
+	}
 	w := pick(r, wallets)
 	info := specInfo{wallet: w}
 	wp := w
